@@ -178,6 +178,51 @@ def parseCtx (realm : String) (rcode : Int) (j : Json) : E Ctx := do
   | "redirect" => pure (redirectExec rcode (← str j "to") base)
   | x => throw s!"unknown handler {x}"
 
+/-- an error value as a term of the line protocol (inverse of `parseErr`) -/
+partial def errJson : Err → Json
+  | .kind k => Json.mkObj [("t", "kind"), ("k", jstr (match k with
+      | .argument => "argument" | .authentication => "authentication" | .authorization => "authorization"
+      | .communication => "communication" | .timeout => "timeout" | .configuration => "configuration"
+      | .internal => "internal" | .noRule => "noRule"))]
+  | .redirect c t => Json.mkObj [("t", "redirect"), ("code", jint c), ("to", jstr t)]
+  | .foreign => Json.mkObj [("t", "foreign")]
+  | .ctxDone c => Json.mkObj [("t", "ctxdone"), ("c", jstr (match c with | .canceled => "canceled" | .deadlineExceeded => "deadline"))]
+  | .wrap e => Json.mkObj [("t", "wrap"), ("e", errJson e)]
+  | .join es => Json.mkObj [("t", "join"), ("es", jarr (es.map errJson))]
+  | .chain es => Json.mkObj [("t", "chain"), ("es", jarr (es.map errJson))]
+
+/-- what became of the token request of an `oauth2_client_credentials` strategy -/
+def parseTokenOutcome (j : Json) : E TokenOutcome := do
+  match ← str j "k" with
+  | "issued" => pure .issued
+  | "sendFailed" => pure (.sendFailed (← parseErr (← fld j "cause")))
+  | "sendTimedOut" => pure (.sendTimedOut (← parseErr (← fld j "cause")))
+  | "unexpectedStatus" => pure .unexpectedStatus
+  | "badRequest" => pure (.badRequest (boolD j "doc" false))
+  | "okUnparsable" => pure .okUnparsable
+  | "okErrorDocument" => pure .okErrorDocument
+  | k => throw s!"unknown token outcome {k}"
+
+/-- the authentication strategy of an endpoint and what happens when it is applied -/
+def parseStrategy (j : Json) : E Strategy := do
+  match ← str j "s" with
+  | "none" => pure .none
+  | "basic" => pure .basicAuth
+  | "apikey" => pure .apiKey
+  | "cc" => pure (.clientCredentials (← parseTokenOutcome (← fld j "token")))
+  | "sig" => pure (.signatures (boolD j "fails" false))
+  | x => throw s!"unknown strategy {x}"
+
+def parseLogLevel : String → E LogLevel
+  | "trace" => pure .trace
+  | "debug" => pure .debug
+  | "info" => pure .info
+  | "warn" => pure .warn
+  | "error" => pure .error
+  | "disabled" => pure .disabled
+  | "" => pure .disabled
+  | x => throw s!"unknown log level {x}"
+
 def parseCel : String → E Cel
   | "holds" => pure .holds
   | "fails" => pure .fails
@@ -192,6 +237,12 @@ partial def parseCause (j : Json) : E (Option Err) := do
   | .error _ => pure ()
   match j.getObjVal? "celAuthz" with
   | .ok c => return celAuthorize (← parseCel (← c.getStr?))
+  | .error _ => pure ()
+  -- a mechanism whose endpoint authenticates (`at = mech`), or `Endpoint.SendRequest` itself (`at = send`)
+  match j.getObjVal? "ep" with
+  | .ok ep =>
+    let st ← parseStrategy (← fld ep "strategy")
+    return (if strD ep "at" "mech" == "send" then authenticateRequest st else createRequest st)
   | .error _ => pure ()
   match j.getObjVal? "stepIf" with
   | .ok c => return stepIf (← parseCel (← c.getStr?)) (← parseCause (fldD j "step" Json.null))
@@ -208,6 +259,9 @@ def parseHandler (realm : String) (rcode : Int) (j : Json) : E (Cel × Handler) 
 /-- answer of the model and the failure that reaches the translator (for the specification) -/
 def svcAnswer (tr : Transport) (cfg : Cfg) (acc : Accept) (realm : String) (rcode : Int) (j : Json) :
     E (Out × Option Failure) := do
+  match j.getObjVal? "upstream" with
+  | .ok _ => throw "an upstream scenario is answered by upAnswer"
+  | .error _ => pure ()
   match j.getObjVal? "pipe" with
   | .ok p =>
     let up ← (arrD p "up").mapM fun h => do
@@ -228,6 +282,18 @@ def svcAnswer (tr : Transport) (cfg : Cfg) (acc : Accept) (realm : String) (rcod
     let ctx ← parseCtx realm rc j
     pure (serve tr.translator cfg acc ctx, finalize ctx)
 
+/-- the proxy service forwarding to a scripted upstream: (informational responses, answer, failure for the
+specification) -/
+def upAnswer (cfg : Cfg) (acc : Accept) (u : Json) : E (List Int × Out × Option Failure) := do
+  let infos ← (arrD u "infos").mapM fun i => match i.getInt? with
+    | .ok n => pure n
+    | .error e => throw e
+  let lvl ← parseLogLevel (strD u "log" "")
+  match ← str u "end" with
+  | "answers" => let (is, o) := proxyForward lvl cfg acc infos .answers; pure (is, o, none)
+  | "dies" => let (is, o) := proxyForward lvl cfg acc infos .dies; pure (is, o, some (plain upstreamFailure))
+  | x => throw s!"unknown end of the upstream exchange {x}"
+
 def runSvc (c : Json) : E Json := do
   let cfgD ← parseCfg (← fld c "cfg")
   let cfgP ← parseCfg (fldD c "pcfg" (← fld c "cfg"))
@@ -237,13 +303,25 @@ def runSvc (c : Json) : E Json := do
   let impl := arrD c "impl"
   let mut out : List Json := []
   let mut spec : List Json := []
+  let mut trees : List Json := []
+  let mut infos : List Json := []
   let mut i := 0
   for r in reqs do
     let tr : Transport := if (← str r "svc") == "envoy" then .grpc else .http
     let cfg := if (← str r "svc") == "proxy" then cfgP else cfgD
     let acc ← parseAccept (fldD r "acc" (Json.mkObj []))
-    let (o, f) ← svcAnswer tr cfg acc realm rcode (fldD r "ctx" (Json.mkObj []))
+    let ctxJ := fldD r "ctx" (Json.mkObj [])
+    let (o, f, inf) ← (match ctxJ.getObjVal? "upstream" with
+      | .ok u => do
+        let (is, o, f) ← upAnswer cfg acc u
+        pure (o, f, jarr (is.map jint))
+      | .error _ => do
+        let (o, f) ← svcAnswer tr cfg acc realm rcode ctxJ
+        pure (o, f, Json.null))
     out := out ++ [outJson o]
+    -- the error value the model says reaches the translator
+    trees := trees ++ [match f with | some f => errJson f.err | none => Json.null]
+    infos := infos ++ [inf]
     match impl[i]? with
     | some a =>
       match f with
@@ -251,7 +329,7 @@ def runSvc (c : Json) : E Json := do
       | none => spec := spec ++ [Json.bool (strD (fldD a "resp" Json.null) "out" "" == "ok")]
     | none => pure ()
     i := i + 1
-  pure (Json.mkObj [("res", jarr out), ("spec", jarr spec)])
+  pure (Json.mkObj [("res", jarr out), ("spec", jarr spec), ("trees", jarr trees), ("infos", jarr infos)])
 
 /-- a redirect error handler created from configuration and executed on a fresh request context -/
 def runMech (c : Json) : E Json := do
